@@ -52,6 +52,7 @@ func c14Elems() []mvElem {
 		mvElem{src: "poryswitch(V) { Y { p p } X { q, r * 2 s } }", steps: []string{"q", "r", "r", "s"}, brace: true},
 		mvElem{src: "poryswitch(V) { X { } _ { q } }", steps: []string{}, brace: true},
 		mvElem{src: "poryswitch(V) { X { t poryswitch(W) { 1: u _: w } } _: q }", steps: []string{"t", "u"}, brace: true},
+		mvElem{src: "poryswitch(V) { X: poryswitch(W) { 1: u * 2 _: w } Y: q _: r }", steps: []string{"u", "u"}},
 	)
 	return out
 }
@@ -228,7 +229,7 @@ func runC14(tier string) int {
 	r.Assume("multipliers with a leading zero are not generated (octal vs decimal is not specified)",
 		"expected expansion is computed by the generator: N copies in order, cut after the first step_end, exactly one step_end last")
 	return r.Finish(r.Get("evaluations"), r.Get("nontrivial"),
-		"every movement list of <= L elements over 42 element kinds (3 steps x 12 multipliers incl. 0, negative, 9999, 10000, hex and a 20-digit number; 6 poryswitch-selected segments in colon, brace and nested forms) x statement / moves() form (and two moves() in one script that differ only in the length of the last run) x 3 separator styles; every mart list of <= M items over plain items, ITEM_NONE, constants (one equal to ITEM_NONE) and poryswitch segments; plus 'step * N' for every N in 1..10005, decimal and hex, statement and moves(); plus lists of K different steps and marts of K items for every K up to the bound in the coverage; plus every identifier-like literal of the compiler's own source as a step and as a mart item; plus one script holding every moves() list of 6 (thorough 7) steps over 8 names; non-trivial = a multiplier > 1 or a multi-step segment is present")
+		"every movement list of <= L elements over 43 element kinds (3 steps x 12 multipliers incl. 0, negative, 9999, 10000, hex and a 20-digit number; 7 poryswitch-selected segments in colon, brace and nested forms incl. a nested poryswitch as the element of a colon case that other cases follow) x statement / moves() form (and two moves() in one script that differ only in the length of the last run) x 3 separator styles; every mart list of <= M items over plain items, ITEM_NONE, constants (one equal to ITEM_NONE) and poryswitch segments; plus 'step * N' for every N in 1..10005, decimal and hex, statement and moves(); plus lists of K different steps and marts of K items for every K up to the bound in the coverage; plus every identifier-like literal of the compiler's own source as a step and as a mart item; plus one script holding every moves() list of 6 (thorough 7) steps over 8 names; non-trivial = a multiplier > 1 or a multi-step segment is present")
 }
 
 // c14Scaled: the size dimension. Every multiplier value from 1 to 10005,
@@ -466,6 +467,8 @@ func c14Marts(r *harness.Run, tier string, sw map[string]string) {
 		{"poryswitch(V) { Y { P1 P2 } _ { Q1 CI Q2 } }", []string{"Q1", "ITEM_X", "Q2"}},
 		{"poryswitch(V) { X { } _: Q1 }", []string{}},
 		{"poryswitch(V) { X { P1 poryswitch(W) { 1 { ITEM_NONE P9 } _: P8 } } }", []string{"P1", "ITEM_NONE", "P9"}},
+		{"poryswitch(V) { X: poryswitch(W) { 1: P1 _: P2 } Y: Q1 _: Q2 }", []string{"P1"}},
+		{"poryswitch(V) { Y: poryswitch(W) { 1: P1 _: P2 } Z { Q1 } _: poryswitch(W) { 2: P3 _: P4 } }", []string{"P4"}},
 	}
 	maxLen := 4
 	if tier == "thorough" {
